@@ -48,6 +48,16 @@ inline Options& opt() {
     return o;
 }
 
+// all 2^32 pairs of a 16-bit element type (about 25 s per operation and type): thorough tier, and only in the builds the driver marks with
+// -DVX_EXH16 (the configurations of the arm cover); every other configuration class runs the D16 x L16 cross domain
+inline bool exh16() {
+#ifdef VX_EXH16
+    return opt().thorough;
+#else
+    return false;
+#endif
+}
+
 inline bool selected(const std::string& subject, const std::string& op) {
     Options& o = opt();
     if (!o.only_subject.empty() && o.only_subject != subject) return false;
